@@ -8,20 +8,24 @@ MAP={'pushBack':('Gen.push_back','tie_push_back',1,'PushPop'),'pushFront':('Gen.
  'swapRemoveFront':('Gen.swap_remove_front','tie_swap_remove_front',1,'Swap'),
  'truncateBack':('Gen.truncate_back','tie_truncate_back',1,'Truncate'),'truncateFront':('Gen.truncate_front','tie_truncate_front',1,'Truncate'),
  'clear':('Gen.clear','tie_clear',0,'Truncate'),'get?':('Gen.get','tie_get',1,'Access'),'front?':('Gen.front','tie_front',0,'Access'),
- 'back?':('Gen.back','tie_back',0,'Access'),'nthBack?':('Gen.nth_back','tie_nth_back',1,'Access'),
+ 'back?':('Gen.back','tie_back',0,'Access'),
+ 'remove':('Gen.remove','tie_remove',1,'Remove'),'makeContiguous':('Gen.make_contiguous','tie_make_contiguous',0,'Remove'),
+ 'dropRange':('Gen.drop_range','tie_drop_range',2,'Truncate'),'nthBack?':('Gen.nth_back','tie_nth_back',1,'Access'),
 }
-WANT={'C01':['C01_push_back','C01_push_front','C01_try_push_back','C01_try_push_front','C01_pop_back','C01_pop_front','C01_swap','C01_swap_remove_back','C01_swap_remove_front','C01_truncate_back','C01_truncate_front','C01_clear'],
+WANT={'C01':['C01_push_back','C01_push_front','C01_try_push_back','C01_try_push_front','C01_pop_back','C01_pop_front','C01_swap','C01_swap_remove_back','C01_swap_remove_front','C01_truncate_back','C01_truncate_front','C01_clear','C01_remove','C01_make_contiguous'],
  'C02':['C02_push_back','C02_push_front','C02_try_push_back','C02_try_push_front'],
- 'C07':['C07_get','C07_front','C07_back','C07_nth_back'],
+ 'C07':['C07_get','C07_front','C07_back','C07_nth_back','C07_make_contiguous'],
+ 'C05':['C05_drop_range','C05_truncate_back','C05_truncate_front','C05_clear'],
  'C11':['C11_swap_ok','C11_swap_panics_i','C11_swap_panics_j'],
- 'C20':['C20_push_back','C20_push_front','C20_pop_back','C20_pop_front','C20_swap'],
- 'C04':['C04_push_back','C04_push_front','C04_pop_back','C04_pop_front','C04_swap_remove_back'],
+ 'C20':['C20_push_back','C20_push_front','C20_pop_back','C20_pop_front','C20_swap','C20_remove','C20_truncate','C20_make_contiguous'],
+ 'C04':['C04_push_back','C04_push_front','C04_pop_back','C04_pop_front','C04_swap_remove_back','C04_remove'],
 }
 DOC = {
  'C01': 'queue semantics (contents, order, length, return value) of the element-level core',
  'C02': 'single-element insertion never loses an element silently',
  'C04': 'behaviour is independent of the physical layout',
  'C07': 'element access returns the element at that logical position',
+ 'C05': 'a panicking element destructor never causes a second drop or a corrupt buffer',
  'C11': 'documented panics of `swap`',
  'C20': 'O(1) operations touch O(1) slots',
 }
@@ -54,6 +58,7 @@ for pid,names in WANT.items():
                 if w not in used: used.append(w)
                 return MAP[w][0]
             return w
+        stmt=re.sub(r"(?<![\w.])dropRange (\w+) (\w+)", r"dropRange (\1, \2)", stmt)
         stmt2=re.sub(r"(?<![\w.])[A-Za-z][A-Za-z0-9]*\??(?![\w?])",rep,stmt)
         if not used: print("no model fn in",n); continue
         sys_vars=[x for x,ty,_ in bn if ty=='Sys']
